@@ -184,6 +184,15 @@ def fam_json(g, rng, thorough):
         g.add("json", d, 0, "json-limit")
 
 
+    # escape soup: string literals (values, keys, array elements) made of escapes that run into each other, are cut short or
+    # carry bad digits, between ordinary characters - whatever the parser's size estimate for the decoded string assumes
+    atoms = [b"\\u", b"\\u1", b"\\u12", b"\\u123", b"\\u1234", b"\\u00e9", b"\\ud83d", b"\\ude00", b"\\uZ", b"\\\\", b'\\"', b"\\n", b"\\x",
+             b"\\/", b"a", b"Z", b"1abc", b"key", b" ", b"\xc3\xa9"]
+    for _ in range(400 if not thorough else 6000):
+        lit = b'"' + b"".join(rng.choice(atoms) for _ in range(rng.choice([1, 2, 2, 3, 4, 6, 9]))) + rng.choice([b"", b"x" * rng.randint(1, 30)]) + b'"'
+        g.add("json", rng.choice([lit, b"[" + lit + b"]", b"{" + lit + b':"v"}', b'{"k":' + lit + b"}", b"[1," + lit + b"," + lit + b"]"]), 0, "json-escapes")
+
+
 def cbor_head(major, info):
     return bytes([(major << 5) | info])
 
